@@ -177,8 +177,8 @@ func (w *Worker) arrive(fr *frame, rg *region, stop, pred *ssa.BasicBlock, ret V
 	a.writes = map[*Value]Value{}
 	for i := rg.mark; i < len(w.journal); i++ {
 		e := w.journal[i]
-		if e.m != nil {
-			panic(mergeAbort{"map update inside merged region"})
+		if e.m != nil || e.ch != nil {
+			panic(mergeAbort{"map/channel update inside merged region"})
 		}
 		if _, ok := a.writes[e.p]; !ok {
 			a.writes[e.p] = *e.p
